@@ -554,9 +554,12 @@ def o_C05(x, ctx):
             break
     # 3. same-type arrival order among the events dispatched in this call
     lastser = {}
+    cond_types = {z.eid[e] for m in z.machines() for s in m.states if s.cond_defer for e in s.defer}
     for t in x.trace:
         if t.K == 'A' and t.serial >= 0 and t.eid > 0:
             e = t.eid % 1000
+            if e in cond_types:
+                continue    # conditional deferral decides per event object: no order between different objects
             if e in lastser and t.serial < lastser[e]:
                 out.append(('order', f'event #{t.serial} of type {e} handled after #{lastser[e]} of the same type although it arrived earlier'))
                 break
